@@ -40,6 +40,15 @@ def streams(tier, seed):
                         tuples = rng.sample(tuples, min(len(tuples), 4 if nd < 4 else 3)) + [tuples[-3]]
                     for ax in tuples:
                         out.append([a, {"op": "np_reduce", "f": f, "obj": 0, "axis": ax, "out": 1}])
+            # the SAME operand used by two successive calls: the second must see it as it was
+            if nd >= 2:
+                a = new_op(rng, 0, ndim=nd, cplx=False)
+                dims = a["dims"]
+                k1, k2 = rng.sample(range(nd), 2)
+                out.append([a, {"op": "np_reduce", "f": "sum", "obj": 0, "axis": dims[k1], "out": 1},
+                            {"op": "np_reduce", "f": "max", "obj": 0, "axis": dims[k2], "out": 2},
+                            {"op": "np_reduce", "f": "mean", "obj": 0, "axis": k1, "out": 3},
+                            {"op": "np_unary", "f": "negative", "obj": 0, "out": 4}])
             for f in UN:
                 a = new_op(rng, 0, ndim=nd, cplx=rng.random() < 0.5)
                 out.append([a, {"op": "np_unary", "f": f, "obj": 0, "out": 1}])
